@@ -39,6 +39,7 @@ type App struct {
 	rsGen     int
 	podSeq    int
 	Deleted   bool   // app object deleted (pods may linger)
+	CRKind    string // for Kind tapp: which scalable custom resource the workload is (TApp or Bar)
 	OwnerKind string // for Kind foo: the (unknown) owner kind of its pods, e.g. Foo, Wordpress, Redis
 }
 
@@ -49,7 +50,7 @@ func (a *App) typePrefix() string {
 	case "dp":
 		return "dp_"
 	case "tapp":
-		return "tapp_"
+		return strings.ToLower(a.crKind()) + "_"
 	case "foo":
 		switch strings.ToLower(a.ownerKind()) {
 		case "statefulset", "statefulsets":
@@ -61,6 +62,22 @@ func (a *App) typePrefix() string {
 	}
 	return "NULL_"
 }
+
+// crKind / crGroup / crRes describe the scalable custom resource of a Kind-tapp workload: two CRDs with a scale
+// sub-resource exist in the cluster (a cache that mixes them up resolves every kind to the same resource).
+func (a *App) crKind() string {
+	if a.CRKind == "" {
+		return "TApp"
+	}
+	return a.CRKind
+}
+func (a *App) crGroup() string {
+	if a.crKind() == "Bar" {
+		return "example.com"
+	}
+	return "apps.tkestack.io"
+}
+func (a *App) crRes() string { return "cr:" + strings.ToLower(a.crKind()) + "s" }
 
 func (a *App) ownerKind() string {
 	if a.OwnerKind == "" {
@@ -413,6 +430,12 @@ func newWorld(s *core.Sim, prop, tier string) *World {
 		Spec: extv1.CustomResourceDefinitionSpec{Group: "apps.tkestack.io", Names: extv1.CustomResourceDefinitionNames{Kind: "TApp", Plural: "tapps"},
 			Versions: []extv1.CustomResourceDefinitionVersion{{Name: "v1", Served: true, Storage: true,
 				Subresources: &extv1.CustomResourceSubresources{Scale: &extv1.CustomResourceSubresourceScale{SpecReplicasPath: ".spec.replicas"}}}}}})
+	// a second scalable custom resource
+	w.mustCreate("crds", extv1.CustomResourceDefinition{TypeMeta: metav1.TypeMeta{Kind: "CustomResourceDefinition", APIVersion: "apiextensions.k8s.io/v1"},
+		ObjectMeta: metav1.ObjectMeta{Name: "bars.example.com"},
+		Spec: extv1.CustomResourceDefinitionSpec{Group: "example.com", Names: extv1.CustomResourceDefinitionNames{Kind: "Bar", Plural: "bars"},
+			Versions: []extv1.CustomResourceDefinitionVersion{{Name: "v1", Served: true, Storage: true,
+				Subresources: &extv1.CustomResourceSubresources{Scale: &extv1.CustomResourceSubresourceScale{SpecReplicasPath: ".spec.replicas"}}}}}})
 	// initial population: a few workloads with their pods already created (not counted as operations)
 	for i, n := 0, c.Range(1, 3); i < n; i++ {
 		w.opCreateApp()
@@ -423,7 +446,7 @@ func newWorld(s *core.Sim, prop, tier string) *World {
 			}
 		}
 	}
-	w.K.Watch("pods", "deployments", "statefulsets", "pools", "crds", "cr:tapps", "floatingips")
+	w.K.Watch("pods", "deployments", "statefulsets", "pools", "crds", "cr:tapps", "cr:bars", "floatingips")
 	return w
 }
 
@@ -954,7 +977,7 @@ func (w *World) deliver(kind string) {
 	if kind == "deployments" || kind == "pools" {
 		defer w.trackFilterWindows()
 	}
-	if kind == "deployments" || kind == "statefulsets" || kind == "cr:tapps" {
+	if kind == "deployments" || kind == "statefulsets" || kind == "cr:tapps" || kind == "cr:bars" {
 		defer w.modelViewChanged()
 	}
 	if kind == "pools" {
@@ -1134,7 +1157,7 @@ func (w *World) newPodObject(a *App, name string, index int) corev1.Pod {
 	case "dp":
 		pod.OwnerReferences = []metav1.OwnerReference{{Kind: "ReplicaSet", Name: fmt.Sprintf("%s-rs%d", a.Name, a.rsGen), APIVersion: "apps/v1", UID: types.UID("rs-" + a.Name)}}
 	case "tapp":
-		pod.OwnerReferences = []metav1.OwnerReference{{Kind: "TApp", Name: a.Name, APIVersion: "apps.tkestack.io/v1", UID: types.UID("app-" + a.Name)}}
+		pod.OwnerReferences = []metav1.OwnerReference{{Kind: a.crKind(), Name: a.Name, APIVersion: a.crGroup() + "/v1", UID: types.UID("app-" + a.Name)}}
 	case "foo":
 		pod.OwnerReferences = []metav1.OwnerReference{{Kind: a.ownerKind(), Name: a.Name, APIVersion: "example.com/v1", UID: types.UID("app-" + a.Name)}}
 	}
@@ -1152,7 +1175,7 @@ func (w *World) createAppObject(a *App) {
 		w.mustCreate("deployments", appsv1.Deployment{TypeMeta: metav1.TypeMeta{Kind: "Deployment", APIVersion: "apps/v1"},
 			ObjectMeta: metav1.ObjectMeta{Name: a.Name, Namespace: a.NS}, Spec: appsv1.DeploymentSpec{Replicas: &r}})
 	case "tapp":
-		w.mustCreate("cr:tapps", map[string]interface{}{"apiVersion": "apps.tkestack.io/v1", "kind": "TApp",
+		w.mustCreate(a.crRes(), map[string]interface{}{"apiVersion": a.crGroup() + "/v1", "kind": a.crKind(),
 			"metadata": map[string]interface{}{"name": a.Name, "namespace": a.NS}, "spec": map[string]interface{}{"replicas": a.Replicas}})
 	}
 	a.Exists = a.Kind == "sts" || a.Kind == "dp" || a.Kind == "tapp"
@@ -1165,7 +1188,7 @@ func appKindRes(a *App) string {
 	case "dp":
 		return "deployments"
 	case "tapp":
-		return "cr:tapps"
+		return a.crRes()
 	}
 	return ""
 }
